@@ -92,14 +92,59 @@ theorem labels_agree (arr : Arr) (hnx : 2 ≤ nx) (hny : 2 ≤ ny) (hi : i < nTo
   have h := ext_range arr hnx hny hi
   exact labels_tbl arr _ (flat_lt_two nz) _ (top_lt_six arr nz _ h) h
 
-/-- **Snowfall's group filter keeps exactly the vials of `getVialGroup(group)`** (as
-repaired by fix K5; the bare string `"all"` bypasses the filter in the code and
-`getVialGroup("all")` selects every vial). -/
-theorem fall_filter_agrees (arr : Arr) (nx ny nz : Nat) (gs : List String) :
+/-- the label of a table row names one of the requested classes, up to the synonyms -/
+def labelIn (arr : Arr) (nz : Nat) (gs : List String) : Label → Bool
+  | .name s => gs.any fun g => canon arr nz g == canon arr nz s
+  | .num _ => false
+
+/-- **Snowfall's group filter means the same as the labels of its table**: the code (as
+repaired by K5) keeps the rows whose vial index is in the `getVialGroup(group)` mask;
+for every batch with `nx, ny ≥ 2` these are exactly the rows whose `group` label (the
+statistics-table label) is one of the requested classes up to the synonyms
+`center = core`, `side = edge` (flat shelf / hexagonal). -/
+theorem fall_filter_agrees (arr : Arr) (hnx : 2 ≤ nx) (hny : 2 ≤ ny) (gs : List String)
+    (hgs : ∀ g ∈ gs, g ∈ ["corner", "edge", "side", "core", "center"]) :
     fallFilter arr nx ny nz gs
-      = (getVialGroup arr nx ny nz gs).map fun m => (List.range m.length).filter fun i => m.getD i false := by
-  unfold fallFilter
-  cases getVialGroup arr nx ny nz gs <;> rfl
+      = .ok ((fallTableOf arr nz (extVec arr nx ny nz)).filter fun row => labelIn arr nz gs row.2) := by
+  have hk : ∀ g ∈ gs, known g = true := fun g hg => (five_known g (hgs g hg)).1
+  have hall : ∀ g ∈ gs, (g == "all") = false := fun g hg => (five_known g (hgs g hg)).2
+  have hm := union_of_groups arr nx ny nz gs hk hall
+  unfold getVialGroup at hm
+  unfold fallFilter fallFilterOf
+  rw [hm]
+  simp only [bind, Except.bind, pure, Except.pure]
+  congr 1
+  apply List.filter_congr
+  intro row hrow
+  simp only [fallTableOf, List.mem_map, List.mem_range] at hrow
+  obtain ⟨i, hi, rfl⟩ := hrow
+  rw [extVec_length] at hi
+  simp only
+  rw [extVec_getD arr hi]
+  have hg : ((extVec arr nx ny nz).map fun e => gs.any fun g => groupTest arr nz g e).getD i false
+      = gs.any fun g => groupTest arr nz g (ext arr nx ny nz i) := by
+    simp [extVec, List.getD_eq_getElem?_getD, hi]
+  rw [hg]
+  obtain ⟨_, s, _, hlab, _, hiff⟩ := labels_agree arr hnx hny hi
+  rw [hlab]
+  simp only [labelIn]
+  apply Bool.eq_iff_iff.mpr
+  simp only [List.any_eq_true]
+  constructor
+  · rintro ⟨g, hg1, hg2⟩
+    exact ⟨g, hg1, by simpa using (hiff g (hgs g hg1)).mp hg2⟩
+  · rintro ⟨g, hg1, hg2⟩
+    exact ⟨g, hg1, (hiff g (hgs g hg1)).mpr (by simpa using hg2)⟩
+
+/-- both label computations of `to_frame` (two separately transcribed statement lists,
+applied one statement after the other) give, for EVERY exposure value, the label of the
+closed form "first matching statement wins": in particular the hexagonal `"side"`
+statement never fires, and the two tables agree. -/
+theorem labels_closed_form (arr : Arr) (nz e : Nat) :
+    statsLabel arr nz e = labelClosedF arr (flat nz) e ∧ trajLabel arr nz e = labelClosedF arr (flat nz) e
+    ∧ statsLabel arr nz e = trajLabel arr nz e := by
+  have h := Snow.Groups.labels_closed_form arr (flat nz) (flat_lt_two nz) e
+  exact ⟨h.1, h.2, h.1.trans h.2.symm⟩
 
 /-- **selecting vials to record by group name uses the same classes**: for each of the
 six names, `storeStates=name` records exactly `getVialGroup(name)`. -/
@@ -162,7 +207,7 @@ theorem trajLabel_upstream_counterexample :
 those vials is `"edge"`), while `getVialGroup("side")` is the edge set -/
 theorem fallFilter_upstream_counterexample :
     fallFilterUpstream .square 3 3 1 ["side"] = []
-    ∧ (fallFilter .square 3 3 1 ["side"]).toOption = some [1, 3, 5, 7] := by decide
+    ∧ (fallFilter .square 3 3 1 ["side"]).toOption.map (fun rows => rows.map (·.1)) = some [1, 3, 5, 7] := by decide
 
 /-- the hypotheses are satisfiable, and in a 3×3×3 square pallet all four classes
 are inhabited (corner 0, edge 1, side 4, core 13). -/
@@ -172,6 +217,20 @@ theorem nonvacuous :
     ∧ groupTest .square 3 "edge" (ext .square 3 3 3 1) = true
     ∧ groupTest .square 3 "side" (ext .square 3 3 3 4) = true
     ∧ groupTest .square 3 "core" (ext .square 3 3 3 13) = true
-    ∧ statsLabel .hexagonal 1 (ext .hexagonal 3 3 1 2) = .name "edge" := by decide
+    ∧ statsLabel .hexagonal 1 (ext .hexagonal 3 3 1 2) = .name "edge"
+    -- hypothesis sets of the remaining conditional theorems
+    ∧ (∀ g ∈ ["side", "core"], g ∈ ["corner", "edge", "side", "core", "center"])          -- fall_filter_agrees
+    ∧ (∀ g ∈ ["corner", "edge"], known g = true ∧ (g == "all") = false)                   -- union_of_groups
+    ∧ (known "center" = true ∧ ("center" == "all") = false)                               -- class_is_exposure_level
+    ∧ (firstGroup (lower "uniform.edge.2") = some "edge"
+        ∧ (maskOf .square 1 (extVec .square 3 3 1) ["edge"]).toOption
+            = some [false, true, false, true, false, true, false, true, false]
+        ∧ digitRuns (lower "uniform.edge.2") none = [2]
+        ∧ hasSub "random".toList (lower "uniform.edge.2") = false
+        ∧ hasSub "uniform".toList (lower "uniform.edge.2") = true
+        ∧ 0 < (whereTrue [false, true, false, true, false, true, false, true, false]).length
+        ∧ hasSub "random".toList (lower "edge_random_2") = true
+        ∧ (∀ v ∈ [1, 7], v ∈ whereTrue [false, true, false, true, false, true, false, true, false])) -- store_thinning_in_group
+    := by decide
 
 end Snow.C16
